@@ -202,6 +202,57 @@ OrientAgrees(R, keys, res) ==
        /\ HasTag(keys, "yaw") => FromAngle(<<A[1], res[idx("yaw")], A[3]>>) = R
 OrientTags == {"angles", "npitch", "pitch", "yaw"}
 
+(* --- instance inputs and outputs (func_instance_io_proxy) ------------------------- *)
+\* an output: [o: output name, t: target, i: input, p: parameter, d: delay (1/1000 s), n: times (-1 forever),
+\*             io: "instance:io;o" part of the output name, ii: "instance:ii;i" part of the input] - NoPart when absent
+NoPart == <<0>>
+ProxyRelayCp == <<112, 114, 111, 120, 121, 114, 101, 108, 97, 121>>                    \* "proxyrelay"
+OnProxyRelayCp == <<111, 110>> \o ProxyRelayCp                                          \* "onproxyrelay"
+IsProxyEnt(e) == e.cls = "func_instance_io_proxy"
+ProxyNames(src) == {LowerSeq(src[j].name) : j \in {k \in 1..Len(src) : IsProxyEnt(src[k])}}
+\* an output of an entity of the file that leaves the instance: aimed at the proxy's ProxyRelay input
+IsRelay(src, out) == LowerSeq(out.i) = ProxyRelayCp /\ LowerSeq(out.t) \in ProxyNames(src)
+RECURSIVE FlatSeq(_)
+FlatSeq(ss) == IF ss = <<>> THEN <<>> ELSE ss[1] \o FlatSeq(Tail(ss))
+\* reading the file (InstanceFile): the proxy goes away; every relay output is taken off its entity and
+\* registered under (entity name, output name), both folded - a later one with the same key replaces an earlier one
+Relays(src) == FlatSeq([j \in 1..Len(src) |->
+                  IF IsProxyEnt(src[j]) THEN <<>>
+                  ELSE LET R(x) == IsRelay(src, x) r == SelectSeq(src[j].outs, R)
+                       IN [k \in 1..Len(r) |-> [ent |-> j, key |-> <<LowerSeq(src[j].name), LowerSeq(r[k].o)>>, out |-> r[k]]]])
+KeptOuts(src, j) == LET K(x) == ~IsRelay(src, x) IN SelectSeq(src[j].outs, K)
+HasRelay(src, key) == \E m \in 1..Len(Relays(src)) : Relays(src)[m].key = key
+RelayOf(src, key) == LET rs == Relays(src) IN
+                     rs[CHOOSE m \in 1..Len(rs) : rs[m].key = key /\ \A q \in (m + 1)..Len(rs) : rs[q].key # key]
+\* inputs into the instance: the proxy's own OnProxyRelay outputs, under (target, input) folded
+ProxyIns(src) == FlatSeq([j \in 1..Len(src) |->
+                    IF ~IsProxyEnt(src[j]) THEN <<>>
+                    ELSE LET P(x) == LowerSeq(x.o) = OnProxyRelayCp IN SelectSeq(src[j].outs, P)])
+HasProxyIn(src, key) == \E m \in 1..Len(ProxyIns(src)) : <<LowerSeq(ProxyIns(src)[m].t), LowerSeq(ProxyIns(src)[m].i)>> = key
+ProxyInOf(src, key) == LET ps == ProxyIns(src) K(m) == <<LowerSeq(ps[m].t), LowerSeq(ps[m].i)>> IN
+                       ps[CHOOSE m \in 1..Len(ps) : K(m) = key /\ \A q \in (m + 1)..Len(ps) : K(q) # key]
+IMin(a, b) == IF a < b THEN a ELSE b
+\* Output.combine(inner relay output, connection on the func_instance)
+CombineOut(pr, c) == [o |-> pr.o, t |-> c.t, i |-> c.i, p |-> IF c.p # <<>> THEN c.p ELSE pr.p, d |-> pr.d + c.d,
+                      n |-> IF c.n < 0 THEN pr.n ELSE IF pr.n < 0 THEN c.n ELSE IMin(pr.n, c.n),
+                      io |-> pr.io, ii |-> c.ii]
+\* the outputs of the placed copy of entity j of the file: its own (relay outputs gone, targets renamed), then one
+\* merged output per connection "instance:<this entity>;<relayed output>" of the func_instance, in their order
+ConnHits(src, j, c) == c.io # NoPart /\ HasRelay(src, <<LowerSeq(c.io), LowerSeq(c.o)>>)
+                       /\ RelayOf(src, <<LowerSeq(c.io), LowerSeq(c.o)>>).ent = j
+PlacedOuts(I, src, j, conns) ==
+    LET kept == KeptOuts(src, j)
+        H(c) == ConnHits(src, j, c)
+        hits == SelectSeq(conns, H)
+    IN [k \in 1..Len(kept) |-> [kept[k] EXCEPT !.t = FixupName(I.style, I.name, Subst(I.fix, @))]]
+       \o [k \in 1..Len(hits) |-> CombineOut(RelayOf(src, <<LowerSeq(hits[k].io), LowerSeq(hits[k].o)>>).out, hits[k])]
+\* an output of an entity outside, aimed at "instance:<entity>;<input>" of this func_instance
+InputHits(I, src, x) == LowerSeq(x.t) = LowerSeq(I.name) /\ x.ii # NoPart /\ HasProxyIn(src, <<LowerSeq(x.ii), LowerSeq(x.i)>>)
+MergedInput(I, src, x) ==
+    LET pr == ProxyInOf(src, <<LowerSeq(x.ii), LowerSeq(x.i)>>) IN
+    [x EXCEPT !.t = FixupName(I.style, I.name, pr.t), !.i = pr.i, !.ii = NoPart,
+              !.p = IF pr.p # <<>> THEN pr.p ELSE @, !.n = IMin(@, pr.n), !.d = @ + pr.d]
+
 (* --- the abstract machine of collapse_all (typed level, used by Instances) ----- *)
 \* An abstract entity is either a marker or a nested instance:
 \*   [kind |-> "mark" or "inst", name, pos, ang, file, style, fixv (value of its one $variable), rc]
